@@ -17,6 +17,7 @@ import (
 	"fmt"
 	"strings"
 	"testing"
+	"time"
 
 	"github.com/DistCompiler/pgo/distsys/tla"
 
@@ -344,10 +345,26 @@ func scenario(w *sim.World) {
 	subs[k].run(w)
 }
 
+func configure(seed uint64, tier string) sim.RunConfig {
+	x := sim.SplitMix64(seed ^ 0xc16)
+	cfg := sim.RunConfig{
+		MaxSteps:    2_000_000,
+		MaxSim:      3 * time.Hour,
+		PreemptProb: []float64{0.05, 0.2, 0.4}[x%3],
+		// the generated `wait` labels busy-retry a failed await: charge realistic time per step
+		StepCost: []time.Duration{100 * time.Microsecond, time.Millisecond}[(x>>4)%2],
+	}
+	if (x>>8)%3 == 0 {
+		cfg.StallProb = 0.01
+		cfg.StallMax = 100 * time.Millisecond
+	}
+	return cfg
+}
+
 func TestWorker(t *testing.T) {
 	harness.Worker(t, harness.Spec{
 		Property:   "C16",
-		Configure:  func(seed uint64, tier string) sim.RunConfig { return sim.RunConfig{MaxSteps: 2_000_000, StepCost: 1000} },
+		Configure:  configure,
 		Scenario:   scenario,
 		NonTrivial: func(r *sim.Result) bool { return r.Counts["spec_steps"] >= 10 || r.Counts["sections"] >= 2 },
 	})
